@@ -1,7 +1,8 @@
-use std::{
-    collections::HashMap,
-    sync::{Arc, Condvar, Mutex, MutexGuard},
-};
+#[cfg(jxl_oxide_verif)]
+use crate::verif_sync::{Condvar, Mutex, MutexGuard};
+#[cfg(not(jxl_oxide_verif))]
+use std::sync::{Condvar, Mutex, MutexGuard};
+use std::{collections::HashMap, sync::Arc};
 
 use jxl_frame::data::{HfGlobal, LfGlobal, LfGroup};
 use jxl_modular::{ChannelShift, Sample};
@@ -128,7 +129,11 @@ impl<S: Sample> FrameRenderHandle<S> {
         let render = if let Some(state) = self.start_render()? {
             let _guard = tracing::trace_span!("Run with image", index = self.frame.idx).entered();
 
+            #[cfg(jxl_oxide_verif)]
+            crate::verif_sync::render_op(self.frame.idx, true);
             let render_result = (self.render_op)(state, self.image_region);
+            #[cfg(jxl_oxide_verif)]
+            crate::verif_sync::render_op(self.frame.idx, false);
             match render_result {
                 FrameRender::InProgress(_) => {
                     drop(self.done_render(render_result));
@@ -153,7 +158,11 @@ impl<S: Sample> FrameRenderHandle<S> {
         if let Some(state) = self.start_render_silent() {
             let _guard = tracing::trace_span!("Run", index = self.frame.idx).entered();
 
+            #[cfg(jxl_oxide_verif)]
+            crate::verif_sync::render_op(self.frame.idx, true);
             let render_result = (self.render_op)(state, image_region);
+            #[cfg(jxl_oxide_verif)]
+            crate::verif_sync::render_op(self.frame.idx, false);
             drop(self.done_render(render_result));
         }
     }
@@ -224,5 +233,22 @@ impl<S: Sample> FrameRenderHandle<S> {
         *guard = render;
         self.condvar.notify_all();
         guard
+    }
+}
+
+#[cfg(jxl_oxide_verif)]
+impl<S: Sample> FrameRenderHandle<S> {
+    /// Name of the current protocol state (verification only).
+    pub fn verif_state_name(&self) -> &'static str {
+        // goes around the hooks on purpose: observation must not be a scheduling point
+        match &*self.render.verif_peek() {
+            FrameRender::None => "None",
+            FrameRender::Rendering => "Rendering",
+            FrameRender::InProgress(_) => "InProgress",
+            FrameRender::Done(_) => "Done",
+            FrameRender::Blended(_) => "Blended",
+            FrameRender::Err(_) => "Err",
+            FrameRender::ErrTaken => "ErrTaken",
+        }
     }
 }
